@@ -932,3 +932,94 @@ func (s *Sim) wireReplyStatus(id int) int {
 	}
 	return 0
 }
+
+// ---------------------------------------------------------------------------
+// C07, server side: the request-stream decoder fed by the raw peer. Whatever
+// bytes a foreign client sends as the body of a streaming request, the
+// handler's receives yield exactly the messages framed in it, in order, and a
+// clean end of stream (io.EOF) only if the body is exactly a sequence of
+// complete frames.
+
+func init() { extraOracles = append(extraOracles, oracleC07server) }
+
+// refDecodeReq is the reference reading of a request body: the payloads of the
+// complete data frames at its start, and whether the body consists of nothing
+// but complete data frames.
+func refDecodeReq(b []byte) (frames [][]byte, clean bool) {
+	for len(b) > 0 {
+		if len(b) < 4 {
+			return frames, false
+		}
+		n := int32(uint32(b[0])<<24 | uint32(b[1])<<16 | uint32(b[2])<<8 | uint32(b[3]))
+		if n < 0 || int(n) > len(b)-4 {
+			return frames, false
+		}
+		frames = append(frames, b[4:4+n])
+		b = b[4+n:]
+	}
+	return frames, true
+}
+
+func oracleC07server(s *Sim) {
+	if s.prog.Profile != "c11" {
+		return
+	}
+	for _, v := range s.views() {
+		if v.r.Kind == KUnary || v.hStart == nil {
+			continue
+		}
+		var rq *RawReq
+		for _, op := range v.r.Client {
+			if op.Raw != nil {
+				rq = op.Raw
+			}
+		}
+		if rq == nil {
+			continue
+		}
+		s.stats.Probes["C07-relevant"]++
+		for _, ev := range v.ev {
+			if ev.Side == 'h' && ev.Err != nil && ev.Err.Class == "panic" {
+				v.fail("C07", "server-decoder-panic", "handler-side %s panicked on request body (%s): %s", ev.Op, rq.Note, ev.Err.Text)
+			}
+		}
+		frames, clean := refDecodeReq([]byte(rq.Body))
+		i := 0
+		for _, rv := range v.hRecv {
+			if rv.RSeq == 0 {
+				break
+			}
+			switch {
+			case rv.Err.IsNil():
+				if i >= len(frames) {
+					v.fail("C07", "server-fabricated-message", "request body (%s, %d bytes) frames %d messages, but the handler's receive #%d returned a message (%s)", rq.Note, len(rq.Body), len(frames), i, rv.Got)
+					return
+				}
+				want := &grpchantesting.Message{}
+				if err := proto.Unmarshal(frames[i], want); err != nil || !proto.Equal(want, rv.GotMsg) {
+					v.fail("C07", "server-wrong-message", "request body (%s): the handler's receive #%d returned %s, frame %d holds other content (decodes: %v)", rq.Note, i, rv.Got, i, err == nil)
+					return
+				}
+				i++
+				continue
+			case rv.Err.IsEOF():
+				if v.r.Kind == KServerStream {
+					// single-request method: a later receive always yields io.EOF
+					if i == 0 && len(frames) > 0 {
+						v.fail("C07", "server-clean-end-with-unread-frames", "request body (%s) frames %d messages but the handler's first receive returned io.EOF", rq.Note, len(frames))
+					}
+					if i == 0 && len(frames) == 0 && !clean {
+						v.fail("C07", "server-unclean-end-as-EOF", "request body (%s, %d bytes) is not a sequence of complete frames, yet the handler's receive reports a clean end of stream (io.EOF)", rq.Note, len(rq.Body))
+					}
+				} else {
+					if i < len(frames) {
+						v.fail("C07", "server-clean-end-with-unread-frames", "request body (%s) frames %d messages but the handler saw a clean end (io.EOF) after %d", rq.Note, len(frames), i)
+					} else if !clean {
+						v.fail("C07", "server-unclean-end-as-EOF", "request body (%s, %d bytes) ends inside a frame or holds an invalid size preface after %d complete frames, yet the handler's receive reports a clean end of stream (io.EOF)", rq.Note, len(rq.Body), i)
+					}
+				}
+			}
+			break
+		}
+	}
+}
